@@ -5,7 +5,7 @@
 
 use crate::Uint;
 use parity_scale_codec::{
-    Compact, CompactAs, Decode, Encode, EncodeAsRef, EncodeLike, Error, HasCompact, Input,
+    Compact, CompactAs, CompactLen, Decode, Encode, EncodeAsRef, EncodeLike, Error, HasCompact, Input,
     MaxEncodedLen, Output,
 };
 
@@ -30,7 +30,10 @@ impl<const BITS: usize, const LIMBS: usize> Encode for Uint<BITS, LIMBS> {
 
 impl<const BITS: usize, const LIMBS: usize> MaxEncodedLen for Uint<BITS, LIMBS> {
     fn max_encoded_len() -> usize {
-        core::mem::size_of::<Self>()
+        // Compact length prefix followed by the little-endian bytes.
+        #[allow(clippy::cast_possible_truncation)] // Lengths above u32 can not be encoded.
+        let prefix = Compact::<u32>::compact_len(&(Self::BYTES as u32));
+        prefix + Self::BYTES
     }
 }
 
